@@ -2,7 +2,7 @@
 
 from __future__ import annotations
 
-from asyncio import ensure_future, gather
+from asyncio import CancelledError, ensure_future, gather
 from contextlib import suppress
 from copy import copy
 from typing import TYPE_CHECKING, Any, NamedTuple, cast
@@ -485,7 +485,7 @@ class IncrementalExecutor(Executor[DeliveryGroupMap]):
             async def await_result() -> WorkResult:
                 try:
                     data = await result
-                except Exception:
+                except (Exception, CancelledError):
                     abort_result = self.abort()
                     if self.is_awaitable(abort_result):
                         await abort_result
@@ -713,7 +713,7 @@ class IncrementalExecutor(Executor[DeliveryGroupMap]):
                         item,
                         None,
                     )
-                except Exception:
+                except (Exception, CancelledError):
                     abort_result = self.abort()
                     if is_awaitable(abort_result):
                         await abort_result
@@ -752,7 +752,7 @@ class IncrementalExecutor(Executor[DeliveryGroupMap]):
                             raw_error, item_type, field_details_list, item_path
                         )
                         resolved = None
-                except Exception:
+                except (Exception, CancelledError):
                     abort_result = self.abort()
                     if is_awaitable(abort_result):
                         await abort_result
